@@ -355,6 +355,12 @@ func c18Block(c *evid.Ctx, seed int64) {
 		}
 		n.Quiesce()
 	}
+	// a quarter of the histories: while ReportFn is parked and reports are queued, the head of
+	// the log is compacted away up to (not including) the latest checkpoint entry. That does
+	// not touch the entries being summed, but the queued reports are then delivered with
+	// ErrRangeMismatch; the reports after them must still name exactly the dropped ranges
+	compacted := false
+	compact := rng.Intn(4) == 0
 	rounds := 1 + rng.Intn(3)
 	for r := 0; r < rounds; r++ {
 		release := n.Park()
@@ -373,6 +379,15 @@ func c18Block(c *evid.Ctx, seed int64) {
 				return
 			}
 			c.Count("stores_while_reportfn_parked", 1)
+			if compact && !compacted && lastCP > 2 && rng.Intn(2) == 0 {
+				if first, err := n.Under.FirstIndex(); err == nil && first > 0 && first < lastCP-1 {
+					if err := n.V.DeleteRange(first, lastCP-1); err == nil {
+						compacted = true
+						c.Count("compactions_under_queued_reports", 1)
+						c.Distinct("call_classes", "block|queued-report-gets-range-mismatch")
+					}
+				}
+			}
 		}
 		release()
 		if !n.Quiesce() {
@@ -407,7 +422,11 @@ func c18Block(c *evid.Ctx, seed int64) {
 			c.Violation("C18:duplicate-report", fmt.Sprintf("two reports for the checkpoint at %d", r.Range.End), replay)
 		}
 		delivered[r.Range.End] = true
-		if r.Err != nil {
+		// after a compaction a queued report may come back with ErrRangeMismatch, or - when the
+		// compaction lands while its range is being read - with a read error; never with a
+		// checksum mismatch
+		var ecm verifier.ErrChecksumMismatch
+		if r.Err != nil && !(compacted && !errors.As(r.Err, &ecm)) {
 			c.Violation("C18:unexpected-report-error", fmt.Sprintf("report %s carries %v in a corruption-free single-node history", r.Range, r.Err), replay)
 		}
 		// dropped checkpoints between the previous delivered report and this one
